@@ -286,14 +286,14 @@ def main(tier):
             'thread order of all reported arrivals)')
     V = Verdict('C09', tier, rule)
     V.minima = {'stops_checked': 800, 'allstop_double_samples': 800, 'runs_completed': 8} if tier == 'quick' else \
-        {'stops_checked': 15000, 'allstop_double_samples': 15000, 'runs_completed': 100}
+        {'stops_checked': 6000, 'allstop_double_samples': 6000, 'runs_completed': 40}
     V.assumptions = ['the debuggee\'s own SeqCst counters are the ground truth for arrivals; /proc task states are the ground truth for stopped',
                      'a watchdog expiry is inconclusive']
     all_cpus = None
     specs = []
     sh = shapes(tier)
     modes = ['line', 'asm', 'both', 'fn']
-    reps = 2 if tier == 'quick' else 14
+    reps = 2 if tier == 'quick' else 6
     i = 0
     for si, shape in enumerate(sh):
         for rep in range(reps):
@@ -306,7 +306,7 @@ def main(tier):
             i += 1
     # step commands mixed in (temporary breakpoints while siblings hit user breakpoints)
     for si, shape in enumerate(sh[:4] if tier == 'quick' else sh[:8]):
-        for rep in range(1 if tier == 'quick' else 6):
+        for rep in range(1 if tier == 'quick' else 3):
             specs.append((si, shape, ['line', 'both'][rep % 2], None, 0 if rep % 2 == 0 else 7 + rep, '1.89', 0, True, tier))
     progs = sorted({(s[0], tuple(sorted(s[1].items())), s[5], s[6]) for s in specs}, key=str)
     common.parallel_map(_prep, progs)
